@@ -170,7 +170,59 @@ def evaluate(v, env, interp):
                 raise Overflow("overflow")    # a checked operation would panic; the caller decides what that means
             r &= m
         return r
+    if k == "call" and v[1]:
+        nm = v[1].rsplit("::", 1)[-1]
+        if nm in ("unwrap_or", "unwrap_or_default") and v[1].startswith(("std::option::Option", "std::result::Result", "core::option::Option", "core::result::Result")):
+            o = evaluate_opt(v[2][0], env, interp)
+            if o[0] == "some":
+                return o[1]
+            return evaluate(v[2][1], env, interp) if nm == "unwrap_or" else 0
+        if nm in ("max", "min", "saturating_sub", "saturating_add", "wrapping_sub", "wrapping_add", "abs_diff", "pow") and len(v[2]) == 2 \
+                and v[1].startswith(("std::", "core::", "<usize", "<isize", "<u32", "<i32", "<u8", "<u64", "<i64")):
+            a, b = evaluate(v[2][0], env, interp), evaluate(v[2][1], env, interp)
+            unsigned = any(("::%s::" % t) in v[1] or v[1].startswith("<%s " % t) for t in ("usize", "u32", "u8", "u64", "u16"))
+            if nm == "max":
+                return max(a, b)
+            if nm == "min":
+                return min(a, b)
+            if nm == "abs_diff":
+                return abs(a - b)
+            if nm == "saturating_sub" and unsigned:
+                return max(a - b, 0)
+            if nm == "wrapping_sub" and unsigned:
+                return (a - b) & MASK["usize"]
+            if nm in ("saturating_add", "wrapping_add") and a + b <= MASK["u32"]:
+                return a + b
+        raise Unknown("cannot fold call of %s" % v[1])
     raise Unknown("cannot fold %s" % k)
+
+
+def _unsigned_target(key):
+    return key.startswith(("<usize ", "<u32 ", "<u8 ", "<u64 ", "<u16 ")) or any(("::%s::" % t) in key for t in ("usize", "u32", "u8", "u64", "u16"))
+
+
+def evaluate_opt(v, env, interp):
+    """fold a value of Option / Result type to ('some', int) | ('none',)"""
+    if v[0] == "adt" and v[2] in ("Some", "Ok") and len(v[4]) == 1:
+        return ("some", evaluate(v[4][0], env, interp))
+    if v[0] == "adt" and v[2] in ("None", "Err"):
+        return ("none",)
+    if v[0] == "call" and v[1]:
+        nm = v[1].rsplit("::", 1)[-1]
+        if nm in ("try_from", "try_into") and len(v[2]) == 1:
+            a = evaluate(v[2][0], env, interp)
+            tgt = v[1] if nm == "try_from" else v[1].split(" as ", 1)[-1]
+            if nm == "try_into":
+                # <isize as TryInto<usize>>::try_into
+                unsigned = any(("TryInto<%s>" % t) in v[1] for t in ("usize", "u32", "u8", "u64", "u16"))
+            else:
+                unsigned = _unsigned_target(tgt)
+            return ("some", a) if (a >= 0 or not unsigned) else ("none",)
+        if nm in ("checked_sub", "checked_add") and len(v[2]) == 2 and _unsigned_target(v[1]):
+            a, b = evaluate(v[2][0], env, interp), evaluate(v[2][1], env, interp)
+            r = a - b if nm == "checked_sub" else a + b
+            return ("some", r) if 0 <= r <= MASK["u32"] else ("none",)
+    raise Unknown("cannot fold optional value %s" % (v[1] if v[0] == "call" else v[0]))
 
 
 class SymRec(e7.Recogniser):
@@ -249,4 +301,27 @@ class SymRec(e7.Recogniser):
                 return (("const", bi), [(TRUE, t["otherwise"])])
             except Unknown:
                 pass
+        st[("@cond", bi)] = v       # kept so that a full assignment can still decide the edge (matches())
         return (("opaque", bi), [(Cons([val]), tg) for val, tg in edges_all] + [(Cons(neg=[val for val, _ in edges_all]), t["otherwise"])])
+
+
+def matches(p, env, interp):
+    """does the path admit the assignment?  symbol guards by their constraint; undecided guards by folding the recorded discriminant
+    under the full assignment (a discriminant that cannot be folded admits every edge)"""
+    for k, c in p["guards"].items():
+        if k in env:
+            if not c.admits(env[k]):
+                return False
+        elif k[0] == "opaque":
+            tree = p["state"].get(("@cond", k[1]))
+            if tree is None:
+                continue
+            try:
+                val = evaluate(tree, env, interp)
+            except Overflow:
+                return False
+            except Unknown:
+                continue
+            if not c.admits(val):
+                return False
+    return True
